@@ -399,6 +399,8 @@ class Lib:
         params = [a.arg for a in fn.args.args]
         bind = dict(clo.defaults)
         for p, a in zip(params, args):
+            if isinstance(a, Opaque) and a.kind == "csvreader":
+                a = a.get("rows")           # an iterator over the remaining rows is passed where a sequence of rows is expected
             bind[p] = a
         bind.update(kwargs)
         if isinstance(fn, ast.Lambda):
@@ -447,6 +449,8 @@ class Lib:
             except Exception:
                 pass
         for p, a in zip(params, args):
+            if isinstance(a, Opaque) and a.kind == "csvreader":
+                a = a.get("rows")           # an iterator over the remaining rows is passed where a sequence of rows is expected
             bind[p] = a
         for k, v in kwargs.items():
             if k not in params:
